@@ -16,6 +16,7 @@ From Coq Require Import List Arith Bool Lia.
 From PQ Require Import Conc.Sem Conc.Async.
 From PQ Require Import Cursor.Model Cursor.Spec Cursor.Proofs Cursor.Rows.
 From PQ Require Import Cursor.Multi Cursor.MultiProofs Cursor.AsyncPages Cursor.AsyncPagesProofs.
+From PQ Require Import Cursor.Nested Cursor.NestedProofs.
 Import ListNotations.
 
 (** ** Page cursor with an offset index *)
@@ -268,6 +269,33 @@ Theorem C08_multi_pages_noindex_refines_position : forall chunks ops,
   run_mpages_noindex chunks ops = run_spec_noindex (concat chunks) ops.
 Proof. exact mpages_noindex_refines. Qed.
 
+(** ** MultiRowGroup over multi row groups (Cursor/Nested.v)
+
+    [t] is an expression of applications of parquet.MultiRowGroup to row groups
+    of files, nested to any depth ([rg_wf]: every application has an argument);
+    [rg_eval false t] is the value multiRowGroup.init builds.  When it is a
+    multi row group, its flattened chunks are the chunks of the files in the
+    order of the expression and rowCounts holds the number of rows of each of
+    them; the pages of its column then behave as one row position over the
+    concatenation of the row groups, for every history. *)
+Theorem C08_nested_flattening : forall t ch cnt gs,
+  rg_wf t -> rg_eval false t = VMulti ch cnt gs ->
+  ch = rg_leaves t /\ cnt = map total_rows ch.
+Proof.
+  intros t ch cnt gs Hwf E. destruct (nested_flatten t Hwf) as [Hc Ho]. rewrite E in *.
+  cbn in Hc, Ho. split; [exact Hc|exact (proj1 Ho)].
+Qed.
+
+Theorem C08_nested_multi_pages_refines_position : forall t ch cnt gs ops,
+  rg_wf t -> rg_eval false t = VMulti ch cnt gs -> Forall positive (rg_leaves t) ->
+  run_nested_indexed t ops = run_spec_noindex (concat (rg_leaves t)) ops.
+Proof. exact nested_indexed_refines. Qed.
+
+Theorem C08_nested_multi_pages_noindex_refines_position : forall t ch cnt gs ops,
+  rg_wf t -> rg_eval false t = VMulti ch cnt gs -> Forall positive (rg_leaves t) ->
+  run_nested_noindex t ops = run_spec_noindex (concat (rg_leaves t)) ops.
+Proof. exact nested_noindex_refines. Qed.
+
 (** ** Reader / GenericReader / the rows of a multiRowGroup
 
     [file_ok rg_rows cols]: [cols] gives, for every column, the page layout of
@@ -343,6 +371,9 @@ Print Assumptions C08_rows_multi_column_stale_rowindex_refuted.
 Print Assumptions C08_global_row_to_row_group.
 Print Assumptions C08_multi_pages_refines_position.
 Print Assumptions C08_multi_pages_noindex_refines_position.
+Print Assumptions C08_nested_flattening.
+Print Assumptions C08_nested_multi_pages_refines_position.
+Print Assumptions C08_nested_multi_pages_noindex_refines_position.
 Print Assumptions C08_rows_multi_row_group.
 Print Assumptions C08_reader_multi_row_group.
 Print Assumptions C08_reader_multi_row_group_noindex.
@@ -384,6 +415,31 @@ Example C08_ex_multi_pages :
     [ReadPage; ReadPage; ReadPage; SeekToRow 15; ReadPage; ReadPage; SeekToRow 9; ReadPage; SeekToRow 40; ReadPage]
   = [Rows 0 4; Rows 4 4; Rows 8 3; SeekOk; Rows 15 2; EOF; SeekOk; Rows 9 2; SeekOk; EOF].
 Proof. vm_compute. reflexivity. Qed.
+
+(* four row groups of 3, 4, 2 and 5 rows combined three levels deep: the
+   flattened chunks and their row counts, and a history with a seek to every
+   row group boundary; had init taken the row counts from the row groups of the
+   nested multi row group ([rg_eval true], counts 7, 2, 5 for four chunks), the
+   seeks would land in the wrong chunk *)
+Definition ex_nest : rgtree :=
+  RGNode [RGNode [RGNode [RGLeaf [2; 1]; RGLeaf [4]]; RGLeaf [1; 1]]; RGLeaf [3; 2]].
+
+Example C08_ex_nested_wf : rg_wf ex_nest /\ Forall positive (rg_leaves ex_nest).
+Proof. split; [cbn; repeat split; discriminate|repeat constructor]. Qed.
+
+Example C08_ex_nested_value :
+  exists gs, rg_eval false ex_nest = VMulti [[2; 1]; [4]; [1; 1]; [3; 2]] [3; 4; 2; 5] gs.
+Proof. eexists. vm_compute. reflexivity. Qed.
+
+Example C08_ex_nested_run :
+  run_nested_indexed ex_nest [SeekToRow 3; ReadPage; SeekToRow 7; ReadPage; SeekToRow 10; ReadPage; SeekToRow 14; ReadPage]
+  = [SeekOk; Rows 3 4; SeekOk; Rows 7 1; SeekOk; Rows 10 2; SeekOk; EOF].
+Proof. vm_compute. reflexivity. Qed.
+
+Example C08_ex_nested_children_counts_differ :
+  (exists gs, rg_eval true ex_nest = VMulti [[2; 1]; [4]; [1; 1]; [3; 2]] [7; 2; 5] gs) /\
+  run_nested_children_counts ex_nest [SeekToRow 7; ReadPage] = [SeekOk; Rows 3 4].
+Proof. split; [eexists|]; vm_compute; reflexivity. Qed.
 
 Example C08_ex_locate : mp_locate (map total_rows [[4; 4]; [3; 3]; [3]]) 0 15 = (2, 1).
 Proof. vm_compute. reflexivity. Qed.
